@@ -324,6 +324,18 @@ def observe_step(ct, net, tree, arrays, want_value=True):
     out["value_bad"] = []
     ref, fix = expected_value(net, tree, arrays)
     out["ref"] = ref
+    # with exponent stripping: mantissa * 10^exponent must be the same value (gather of stripped slices included)
+    if want_value:
+        try:
+            # check_zero: the canonical integer arrays contain zeros, so a slice / intermediate can vanish exactly
+            m_, e_ = obs.contract(arrays, strip_exponent=True, check_zero=True)
+            got_s = np.asarray(m_) * 10.0 ** float(e_)
+            nz = np.all(ref != 0)
+            if nz and (got_s.shape != ref.shape or not np.allclose(got_s, ref, rtol=1e-9, atol=1e-12)):
+                out["value_bad"].append((2, "value with strip_exponent=True"))
+        except Exception as e:
+            if np.all(ref != 0):
+                out["errors"].append(("contract-strip", core.exc_text(e)))
     for ki, key in enumerate(CONTRACT_KEYS):
         try:
             steps = observe.compiled_program(obs, **key)
